@@ -60,7 +60,7 @@ func init() {
 		info, err := pgdump.ParseIndexFile(unhex(args[0]))
 		return showInfo(info, err)
 	}
-	for _, f := range []string{"idxfile", "idxflags", "idxcycle", "idxmeta"} {
+	for _, f := range []string{"idxfile", "idxflags", "idxcycle", "idxmeta", "idxmal"} {
 		core.Register(f, whole)
 	}
 	// idxmut: malformed index files; ParseIndexFile must return (C10)
